@@ -145,6 +145,19 @@ func main() {
 			c.Eval()
 			return
 		}
+		if gen.Kind == "parallel-close" {
+			msg := ""
+			for i := 0; i < 60000 && msg == ""; i++ {
+				msg = parallelClose(4)
+			}
+			fmt.Printf("replay: parallel close x60000 -> %q\n", msg)
+			if msg != "" {
+				fmt.Println("ORACLE-FAIL:", msg)
+				c.Fail("replay", msg, gen)
+			}
+			c.Eval()
+			return
+		}
 		if gen.Kind == "concurrent" {
 			msg := concurrentRound(gen.RoundSeed)
 			fmt.Printf("replay: concurrent round %d -> %q\n", gen.RoundSeed, msg)
@@ -280,6 +293,23 @@ func main() {
 		}
 	}
 
+	// simultaneous Close calls released by a barrier (close of a closed channel would panic)
+	{
+		iters := c.Pick(6000, 60000)
+		deadline := time.Now().Add(time.Duration(c.Pick(6, 40)) * time.Second)
+		done := 0
+		for i := 0; i < iters && time.Now().Before(deadline); i++ {
+			done++
+			if msg := parallelClose(4); msg != "" {
+				c.Fail("parallel-close:"+msg, "4 simultaneous Close calls + a Next waiter: "+msg, map[string]interface{}{"kind": "parallel-close", "callers": 4})
+				break
+			}
+		}
+		c.CountN("parallel_close_rounds", done)
+		c.Res.Evaluations += done
+		c.Nontrivial("parallel-close")
+	}
+
 	// concurrent rounds
 	rounds := c.Pick(150, 1500)
 	crng := c.Rng.Fork("conc")
@@ -384,4 +414,50 @@ func concurrentRound(seed uint64) string {
 	case <-time.After(3 * time.Second):
 		return "Close;Close;UncacheCid;Direct;Next after a concurrent round did not return within 3s"
 	}
+}
+
+// parallelClose releases n Close calls at the same instant on a fresh receiver with a
+// Next waiter; all must return without panicking and the waiter must get ErrClosed.
+func parallelClose(n int) string {
+	r, err := announce.NewReceiver(nil, "")
+	if err != nil {
+		return "new: " + err.Error()
+	}
+	start := make(chan struct{})
+	res := make(chan string, n+1)
+	go func() {
+		_, err := r.Next(context.Background())
+		if err != announce.ErrClosed {
+			res <- fmt.Sprintf("Next returned %v, want ErrClosed", err)
+			return
+		}
+		res <- ""
+	}()
+	for i := 0; i < n; i++ {
+		go func() {
+			defer func() {
+				if x := recover(); x != nil {
+					res <- fmt.Sprint("Close panicked: ", x)
+				}
+			}()
+			<-start
+			if err := r.Close(); err != nil {
+				res <- "Close returned " + err.Error()
+				return
+			}
+			res <- ""
+		}()
+	}
+	close(start)
+	for i := 0; i < n+1; i++ {
+		select {
+		case m := <-res:
+			if m != "" {
+				return m
+			}
+		case <-time.After(3 * time.Second):
+			return "a Close or the Next waiter did not return within 3s"
+		}
+	}
+	return ""
 }
